@@ -202,6 +202,52 @@ pub fn classify(y: i32, m: u8, d: u8, h: u8, mi: u8, s: u8, ns: u32, leap_days: 
     Some(true)
 }
 
+/// all ordered pairs (first, second) of the menu, sequentially: the second construction must not depend on the first
+pub fn j_order(out: &mut Local) {
+    let mut years: Vec<i64> = vec![];
+    for k in [0i64, 1, 4, 99, 100, 101, 399, 400, 401, 402, 500, 1000, 1899, 1900, 1901, 5000, 8099, 10_000, 20_000] {
+        years.push(1900 + k);
+        years.push(1900 - k);
+    }
+    years.sort();
+    years.dedup();
+    let menu: Vec<(i64, i64, i64)> = years.iter().flat_map(|y| [(*y, 1i64, 1i64), (*y, 3, 1), (*y, 12, 31)]).collect();
+    let scales = [TimeScale::TAI, TimeScale::UTC, TimeScale::GPST, TimeScale::ET];
+    let mut bad: Option<(usize, usize, i128, String)> = None;
+    let mut n = 0u64;
+    'outer: for (i, a) in menu.iter().enumerate() {
+        for (j, b) in menu.iter().enumerate() {
+            let ts = scales[(i + j) % 4];
+            let want = expected_count(days1900(b.0, b.1, b.2), 43_200 * NS_S + 5, ts);
+            let r = guard(|| {
+                let _ = Epoch::maybe_from_gregorian(a.0 as i32, a.1 as u8, a.2 as u8, 0, 0, 0, 0, ts);
+                Epoch::maybe_from_gregorian(b.0 as i32, b.1 as u8, b.2 as u8, 12, 0, 0, 5, ts).map(|e| (alpha(e.duration), e.time_scale))
+            });
+            n += 1;
+            match r {
+                Ok(Ok((c, t))) if c == want && t == ts => {}
+                other => {
+                    bad = Some((i, j, want, format!("{other:?}")));
+                    break 'outer;
+                }
+            }
+        }
+    }
+    match bad {
+        None => {
+            out.ok(2 * n, true, 0);
+            out.sample("c08.order", vec![menu.len().to_string()], format!("{n} ordered pairs, every second construction exact"), true);
+        }
+        Some((i, j, want, got)) => out.viol(
+            "c08.order",
+            "second-construction-depends-on-the-first".into(),
+            vec![format!("{:?}", menu[i]), format!("{:?}", menu[j])],
+            format!("{want} for {:?} whatever was built before", menu[j]),
+            format!("{got} after building {:?}", menu[i]),
+        ),
+    }
+}
+
 pub fn j_reject(y: i32, m: u8, d: u8, h: u8, mi: u8, s: u8, ns: u32, ts: TimeScale, leap_days: &[i64], out: &mut Local) {
     let args = vec![y.to_string(), m.to_string(), d.to_string(), h.to_string(), mi.to_string(), s.to_string(), ns.to_string(), scale_name(ts).to_string()];
     let r = guard(|| (Epoch::maybe_from_gregorian(y, m, d, h, mi, s, ns, ts).map(|e| alpha(e.duration)), is_gregorian_valid(y, m, d, h, mi, s, ns)));
@@ -298,6 +344,11 @@ pub fn run(rep: &mut Report) {
         let (m, d) = [(1i64, 1i64), (3, 1), (12, 31)][((i / 27) % 3) as usize];
         j_value(days1900(y, m, d), tod, ts, i % 16 == 0, out)
     });
+    // order independence (operation sequences of depth 2, run on ONE thread while nothing else calls the library): every
+    // ordered pair of a menu of 114 dates - years mirrored about 1900 and about 0, leap / century / 400-year classes,
+    // the far range - is built back to back, and the SECOND result must be the oracle's whatever was built first: a
+    // constructor that keeps state between calls (a memo, a cursor into a table) shows here and nowhere else
+    sweep(rep, "c08.order", 1, |_, out| j_order(out));
     // rejection product
     let days_ax: Vec<u8> = (0..=33).chain([255]).collect();
     let dims = [R_YEARS.len(), R_MONTHS.len(), days_ax.len(), R_HOURS.len(), R_MINUTES.len(), R_SECONDS.len(), R_NANOS.len()];
@@ -336,6 +387,7 @@ pub fn run(rep: &mut Report) {
 
 pub fn replay(check: &str, a: &[String], out: &mut Local) -> bool {
     match check {
+        "c08.order" => j_order(out),
         "c08.value" => j_value(p64(&a[0]), p128(&a[1]), scale_from(&a[2]), true, out),
         "c08.reject" | "c08.leap60" => {
             let leap = LeapTable::load().expect("leap").0;
